@@ -46,7 +46,7 @@ func GenDaemon(prop string, seed uint64, tier string) *DaemonScenario {
 		}
 		return sc
 	}
-	if prop == "C02" && seed%3 == 2 {
+	if prop == "C02" && seed%2 == 1 {
 		// check and repair write into the store below the append-only layer: the chain (or the ring's window)
 		// must still be whole afterwards
 		sc := GenDaemon("C10", seed, tier)
@@ -131,7 +131,7 @@ func GenDaemon(prop string, seed uint64, tier string) *DaemonScenario {
 			if r.Bool(12) {
 				sc.DKGSteps = append(sc.DKGSteps, DKGStep{K: "flow"})
 			}
-			if r.Bool(25) {
+			if r.Bool(25) || prop == "C08" && r.Bool(30) {
 				// a pending proposal, then something that needs one
 				sc.DKGSteps = append(sc.DKGSteps, DKGStep{K: "cmd", Node: 0, S: r.Pick("reshare_ok", "reshare_ok", "reshare_ok_leaver")})
 				if prop == "C09" && r.Bool(50) {
